@@ -1495,6 +1495,795 @@ fn main() {
 // ------------------------------------------------------------------------------------------
 mod c19_corr {
     use super::*;
-    pub fn run_corr(_out: &mut Out, _rng: &mut Rng, _thorough: bool) {}
-    pub fn replay_corr(_out: &mut Out, _inp: &Value) {}
+    use serde::ser::{self, SerializeSeq, SerializeStruct};
+    use std::fmt::Display;
+
+    // ---- a serde Serializer that records the calls it receives (the real token stream) ----
+    #[derive(Debug, Clone, PartialEq)]
+    pub enum Tok {
+        Struct(String, usize),
+        Field(String),
+        U64(u64),
+        F64(f64),
+        F32(f32),
+        SeqBegin(Option<usize>),
+        SeqEnd,
+        StructEnd,
+        Other(&'static str),
+    }
+    #[derive(Default)]
+    pub struct Rec {
+        pub toks: Vec<Tok>,
+    }
+    #[derive(Debug)]
+    pub struct RecErr(String);
+    impl Display for RecErr {
+        fn fmt(&self, f: &mut std::fmt::Formatter<'_>) -> std::fmt::Result {
+            write!(f, "{}", self.0)
+        }
+    }
+    impl std::error::Error for RecErr {}
+    impl ser::Error for RecErr {
+        fn custom<T: Display>(m: T) -> Self {
+            RecErr(m.to_string())
+        }
+    }
+    macro_rules! other {
+        ($name:ident, $ty:ty) => {
+            fn $name(self, _v: $ty) -> Result<(), RecErr> {
+                self.toks.push(Tok::Other(stringify!($name)));
+                Ok(())
+            }
+        };
+    }
+    impl<'a> ser::Serializer for &'a mut Rec {
+        type Ok = ();
+        type Error = RecErr;
+        type SerializeSeq = Self;
+        type SerializeTuple = ser::Impossible<(), RecErr>;
+        type SerializeTupleStruct = ser::Impossible<(), RecErr>;
+        type SerializeTupleVariant = ser::Impossible<(), RecErr>;
+        type SerializeMap = ser::Impossible<(), RecErr>;
+        type SerializeStruct = Self;
+        type SerializeStructVariant = ser::Impossible<(), RecErr>;
+        other!(serialize_bool, bool);
+        other!(serialize_i8, i8);
+        other!(serialize_i16, i16);
+        other!(serialize_i32, i32);
+        other!(serialize_i64, i64);
+        other!(serialize_u8, u8);
+        other!(serialize_u16, u16);
+        other!(serialize_u32, u32);
+        other!(serialize_char, char);
+        other!(serialize_str, &str);
+        other!(serialize_bytes, &[u8]);
+        fn serialize_u64(self, v: u64) -> Result<(), RecErr> {
+            self.toks.push(Tok::U64(v));
+            Ok(())
+        }
+        fn serialize_f32(self, v: f32) -> Result<(), RecErr> {
+            self.toks.push(Tok::F32(v));
+            Ok(())
+        }
+        fn serialize_f64(self, v: f64) -> Result<(), RecErr> {
+            self.toks.push(Tok::F64(v));
+            Ok(())
+        }
+        fn serialize_none(self) -> Result<(), RecErr> {
+            self.toks.push(Tok::Other("none"));
+            Ok(())
+        }
+        fn serialize_some<T: ?Sized + Serialize>(self, _v: &T) -> Result<(), RecErr> {
+            self.toks.push(Tok::Other("some"));
+            Ok(())
+        }
+        fn serialize_unit(self) -> Result<(), RecErr> {
+            self.toks.push(Tok::Other("unit"));
+            Ok(())
+        }
+        fn serialize_unit_struct(self, _n: &'static str) -> Result<(), RecErr> {
+            self.toks.push(Tok::Other("unit_struct"));
+            Ok(())
+        }
+        fn serialize_unit_variant(self, _n: &'static str, _i: u32, _v: &'static str) -> Result<(), RecErr> {
+            self.toks.push(Tok::Other("unit_variant"));
+            Ok(())
+        }
+        fn serialize_newtype_struct<T: ?Sized + Serialize>(self, _n: &'static str, _v: &T) -> Result<(), RecErr> {
+            self.toks.push(Tok::Other("newtype_struct"));
+            Ok(())
+        }
+        fn serialize_newtype_variant<T: ?Sized + Serialize>(self, _n: &'static str, _i: u32, _v: &'static str, _x: &T) -> Result<(), RecErr> {
+            self.toks.push(Tok::Other("newtype_variant"));
+            Ok(())
+        }
+        fn serialize_seq(self, len: Option<usize>) -> Result<Self, RecErr> {
+            self.toks.push(Tok::SeqBegin(len));
+            Ok(self)
+        }
+        fn serialize_tuple(self, _len: usize) -> Result<Self::SerializeTuple, RecErr> {
+            Err(RecErr("tuple".into()))
+        }
+        fn serialize_tuple_struct(self, _n: &'static str, _len: usize) -> Result<Self::SerializeTupleStruct, RecErr> {
+            Err(RecErr("tuple_struct".into()))
+        }
+        fn serialize_tuple_variant(self, _n: &'static str, _i: u32, _v: &'static str, _len: usize) -> Result<Self::SerializeTupleVariant, RecErr> {
+            Err(RecErr("tuple_variant".into()))
+        }
+        fn serialize_map(self, _len: Option<usize>) -> Result<Self::SerializeMap, RecErr> {
+            Err(RecErr("map".into()))
+        }
+        fn serialize_struct(self, name: &'static str, len: usize) -> Result<Self, RecErr> {
+            self.toks.push(Tok::Struct(name.to_string(), len));
+            Ok(self)
+        }
+        fn serialize_struct_variant(self, _n: &'static str, _i: u32, _v: &'static str, _len: usize) -> Result<Self::SerializeStructVariant, RecErr> {
+            Err(RecErr("struct_variant".into()))
+        }
+    }
+    impl<'a> SerializeSeq for &'a mut Rec {
+        type Ok = ();
+        type Error = RecErr;
+        fn serialize_element<T: ?Sized + Serialize>(&mut self, v: &T) -> Result<(), RecErr> {
+            v.serialize(&mut **self)
+        }
+        fn end(self) -> Result<(), RecErr> {
+            self.toks.push(Tok::SeqEnd);
+            Ok(())
+        }
+    }
+    impl<'a> SerializeStruct for &'a mut Rec {
+        type Ok = ();
+        type Error = RecErr;
+        fn serialize_field<T: ?Sized + Serialize>(&mut self, key: &'static str, v: &T) -> Result<(), RecErr> {
+            self.toks.push(Tok::Field(key.to_string()));
+            v.serialize(&mut **self)
+        }
+        fn end(self) -> Result<(), RecErr> {
+            self.toks.push(Tok::StructEnd);
+            Ok(())
+        }
+    }
+
+    const KEYS: [&str; 8] = ["nrows", "ncols", "values", "NROWS", "nrow", "", "valuess", "shape"];
+    fn key_code(k: &str) -> usize {
+        KEYS.iter().position(|x| *x == k).unwrap_or(7)
+    }
+
+    /// recorded stream -> Gallina `list ktoken`
+    fn ktokens(toks: &[Tok]) -> String {
+        let mut items: Vec<String> = vec![];
+        let mut i = 0;
+        while i < toks.len() {
+            match &toks[i] {
+                Tok::Struct(name, len) => {
+                    items.push(format!("KStruct {} {}", coq_bool(name == "DenseMatrix"), coq_n(*len)));
+                    i += 1;
+                }
+                Tok::StructEnd => {
+                    items.push("KEnd".into());
+                    i += 1;
+                }
+                Tok::Field(k) => {
+                    // the value that follows
+                    let (val, next) = match toks.get(i + 1) {
+                        Some(Tok::U64(n)) => (format!("(ju {})", coq_n(*n as usize)), i + 2),
+                        Some(Tok::SeqBegin(declared)) => {
+                            let mut j = i + 2;
+                            let mut vals: Vec<f64> = vec![];
+                            let mut ok = true;
+                            while j < toks.len() && toks[j] != Tok::SeqEnd {
+                                match &toks[j] {
+                                    Tok::F64(x) => vals.push(*x),
+                                    Tok::F32(x) => vals.push(*x as f64),
+                                    _ => ok = false,
+                                }
+                                j += 1;
+                            }
+                            if let Some(dl) = declared {
+                                ok &= *dl == vals.len();
+                            }
+                            (if ok { format!("(js {})", coq_list_f64(&vals)) } else { "jx".to_string() }, j + 1)
+                        }
+                        _ => ("jx".to_string(), i + 2),
+                    };
+                    items.push(format!("KField {} {}", coq_n(key_code(k)), val));
+                    i = next;
+                }
+                _ => {
+                    items.push("KField 7%N jx".into());
+                    i += 1;
+                }
+            }
+        }
+        coq_list(items)
+    }
+
+    fn lattice(rng: &mut Rng) -> f64 {
+        match rng.below(8) {
+            0 => 0.0,
+            1 => -0.0,
+            2 => rng.int(-3, 3) as f64,
+            _ => rng.dyadic(4, 3),
+        }
+    }
+
+    fn corr_tokens<T: Num>(out: &mut Out, rng: &mut Rng) {
+        let (n, p) = (rng.below(5), rng.below(5));
+        let len = if rng.chance(0.8) { n * p } else { rng.below(7) }; // `new` does not tie the length to the shape
+        let vals: Vec<f64> = (0..len).map(|_| lattice(rng)).collect();
+        let m: DenseMatrix<T> = DenseMatrix::new(n, p, vect::<T>(&vals));
+        let mut rec = Rec::default();
+        let input = json!({"entry": "codec", "what": "tokens", "nrows": n, "ncols": p, "values": vals, "f32": T::F32});
+        if m.serialize(&mut rec).is_err() {
+            out.corr("dm_tokens", "false".into(), input);
+            return;
+        }
+        out.corr("dm_tokens", format!("corr_tokens {} {} {} {}", coq_n(n), coq_n(p), coq_list_f64(&vals), ktokens(&rec.toks)), input);
+    }
+
+    // ---- JSON text fed to the real Deserialize impl ----
+    #[derive(Clone, Debug)]
+    enum JV {
+        U(u64),
+        S(Vec<f64>),
+        X(&'static str),
+    }
+    impl JV {
+        fn text(&self) -> String {
+            match self {
+                JV::U(n) => n.to_string(),
+                JV::S(v) => format!("[{}]", v.iter().map(|x| format!("{:?}", x)).collect::<Vec<_>>().join(",")),
+                JV::X(s) => s.to_string(),
+            }
+        }
+        fn coq(&self) -> String {
+            match self {
+                JV::U(n) => format!("(ju {})", coq_n(*n as usize)),
+                JV::S(v) => format!("(js {})", coq_list_f64(v)),
+                JV::X(_) => "jx".into(),
+            }
+        }
+    }
+    const WRONG: [&str; 8] = ["\"x\"", "1.5", "-1", "null", "true", "{}", "[1,\"a\"]", "[[1.0]]"];
+
+    fn classify(msg: &str) -> (usize, usize) {
+        let field = |m: &str| -> usize {
+            let a = m.find('`').map(|i| i + 1).unwrap_or(0);
+            let b = m[a..].find('`').map(|i| i + a).unwrap_or(a);
+            key_code(&m[a..b])
+        };
+        if msg.starts_with("invalid length") {
+            let n: usize = msg["invalid length ".len()..].split(',').next().and_then(|s| s.trim().parse().ok()).unwrap_or(99);
+            (0, n)
+        } else if msg.starts_with("duplicate field") {
+            (1, field(msg))
+        } else if msg.starts_with("missing field") {
+            (2, field(msg))
+        } else if msg.starts_with("unknown field") {
+            (3, field(msg))
+        } else if msg.starts_with("invalid type") || msg.starts_with("invalid value") {
+            (4, 0)
+        } else if msg.starts_with("trailing characters") || msg.starts_with("trailing comma") {
+            (5, 0)
+        } else if msg.starts_with("EOF") {
+            (6, 0)
+        } else {
+            (99, 0)
+        }
+    }
+
+    fn json_expected<T: Num>(text: &str) -> String {
+        match guard(|| serde_json::from_str::<DenseMatrix<T>>(text)) {
+            Ok(Ok(m)) => {
+                let (n, p) = m.shape();
+                let vals: Vec<T> = m.into();
+                format!("(EOk {} {} {})", coq_n(n), coq_n(p), coq_list_f64(&vecf(&vals)))
+            }
+            Ok(Err(e)) => {
+                let (c, a) = classify(&e.to_string());
+                format!("(EErr {} {})", coq_n(c), coq_n(a))
+            }
+            Err(_) => "(EErr 98%N 0%N)".to_string(),
+        }
+    }
+
+    fn rand_val(rng: &mut Rng, want: usize) -> JV {
+        // want: 0 = usize, 1 = Vec; mostly well-typed
+        let r = rng.below(10);
+        if r == 0 {
+            JV::X(*rng.pick(&WRONG))
+        } else if r == 1 {
+            if want == 0 { JV::S((0..rng.below(3)).map(|_| lattice(rng)).collect()) } else { JV::U(rng.below(5) as u64) }
+        } else if want == 0 {
+            JV::U(*rng.pick(&[0u64, 1, 2, 3, 7, 1000, u64::MAX]) )
+        } else {
+            JV::S((0..rng.below(7)).map(|_| lattice(rng)).collect())
+        }
+    }
+
+    fn corr_json<T: Num>(out: &mut Out, rng: &mut Rng, shape: usize) {
+        match shape {
+            // sequence form, 0..5 elements
+            0 => {
+                let len = *rng.pick(&[0usize, 1, 2, 3, 3, 3, 3, 4, 5]);
+                let vs: Vec<JV> = (0..len).map(|i| rand_val(rng, if i == 2 { 1 } else { 0 })).collect();
+                let text = format!("[{}]", vs.iter().map(|v| v.text()).collect::<Vec<_>>().join(","));
+                let exp = json_expected::<T>(&text);
+                out.corr("dm_json_seq", format!("corr_json_seq {} {}", coq_list(vs.iter().map(|v| v.coq())), exp), json!({"entry": "codec", "what": "json", "text": text, "f32": T::F32}));
+            }
+            // map form: a permutation of the three fields, then possibly a duplicate, a missing or an unknown key
+            1 => {
+                let mut kv: Vec<(usize, JV)> = vec![(0, rand_val(rng, 0)), (1, rand_val(rng, 0)), (2, rand_val(rng, 1))];
+                rng.shuffle(&mut kv);
+                match rng.below(6) {
+                    0 => {
+                        let k = rng.below(3);
+                        let pos = rng.below(kv.len() + 1);
+                        kv.insert(pos, (k, rand_val(rng, if k == 2 { 1 } else { 0 })));
+                    }
+                    1 => {
+                        let pos = rng.below(kv.len());
+                        kv.remove(pos);
+                    }
+                    2 => {
+                        let pos = rng.below(kv.len() + 1);
+                        let (uk, want) = (rng.usize_in(3, 7), rng.below(2));
+                        kv.insert(pos, (uk, rand_val(rng, want)));
+                    }
+                    3 => {
+                        let keep = rng.below(2);
+                        kv.truncate(keep);
+                    }
+                    _ => {}
+                }
+                let text = format!("{{{}}}", kv.iter().map(|(k, v)| format!("\"{}\":{}", KEYS[*k], v.text())).collect::<Vec<_>>().join(","));
+                let exp = json_expected::<T>(&text);
+                out.corr(
+                    "dm_json_map",
+                    format!("corr_json_map {} {}", coq_list(kv.iter().map(|(k, v)| format!("({}, {})", coq_n(*k), v.coq()))), exp),
+                    json!({"entry": "codec", "what": "json", "text": text, "f32": T::F32}),
+                );
+            }
+            _ => {
+                let text = *rng.pick(&["\"DenseMatrix\"", "5", "null", "1.5", "true"]);
+                let exp = json_expected::<T>(text);
+                out.corr("dm_json_other", format!("corr_json_other {}", exp), json!({"entry": "codec", "what": "json", "text": text, "f32": T::F32}));
+            }
+        }
+    }
+
+    /// all six field orders of a well-formed object, non-square shapes
+    fn corr_json_orders<T: Num>(out: &mut Out, rng: &mut Rng) {
+        let perms: [[usize; 3]; 6] = [[0, 1, 2], [0, 2, 1], [1, 0, 2], [1, 2, 0], [2, 0, 1], [2, 1, 0]];
+        let (n, p) = (rng.usize_in(1, 4), rng.usize_in(1, 4));
+        let vals: Vec<f64> = (0..n * p).map(|_| lattice(rng)).collect();
+        let fields = [JV::U(n as u64), JV::U(p as u64), JV::S(vals)];
+        for perm in perms.iter() {
+            let kv: Vec<(usize, JV)> = perm.iter().map(|k| (*k, fields[*k].clone())).collect();
+            let text = format!("{{{}}}", kv.iter().map(|(k, v)| format!("\"{}\":{}", KEYS[*k], v.text())).collect::<Vec<_>>().join(","));
+            let exp = json_expected::<T>(&text);
+            out.corr(
+                "dm_json_map",
+                format!("corr_json_map {} {}", coq_list(kv.iter().map(|(k, v)| format!("({}, {})", coq_n(*k), v.coq()))), exp),
+                json!({"entry": "codec", "what": "json", "text": text, "f32": T::F32}),
+            );
+        }
+    }
+
+    // ---- bincode bytes ----
+    fn bits_of<T: Num>(v: T) -> u64 {
+        if T::F32 {
+            (f(v) as f32).to_bits() as u64
+        } else {
+            f(v).to_bits()
+        }
+    }
+    fn coq_bytes(b: &[u8]) -> String {
+        coq_list(b.iter().map(|x| coq_n(*x as usize)))
+    }
+    fn coq_u64s(b: &[u64]) -> String {
+        coq_list(b.iter().map(|x| format!("{}%N", x)))
+    }
+    fn corr_bincode<T: Num>(out: &mut Out, rng: &mut Rng) {
+        let w = if T::F32 { 4 } else { 8 };
+        let (n, p) = (rng.below(5), rng.below(5));
+        let len = if rng.chance(0.8) { n * p } else { rng.below(6) };
+        let specials = [0.0, -0.0, f64::NAN, f64::INFINITY, f64::NEG_INFINITY, 1.0 / 3.0, 5e-324, f64::MAX];
+        let vals: Vec<T> = (0..len)
+            .map(|_| if rng.chance(0.2) { t::<T>(*rng.pick(&specials)) } else { t::<T>(rng.normal() * 100.0) })
+            .collect();
+        let m: DenseMatrix<T> = DenseMatrix::new(n, p, vals.clone());
+        let bits: Vec<u64> = vals.iter().map(|v| bits_of(*v)).collect();
+        let bytes = match bincode::serialize(&m) {
+            Ok(b) => b,
+            Err(_) => {
+                out.corr("dm_bincode_ser", "false".into(), json!({"entry": "bincode", "what": "serialize failed"}));
+                return;
+            }
+        };
+        let input = json!({"entry": "bincode", "nrows": n, "ncols": p, "bits": bits.iter().map(|b| b.to_string()).collect::<Vec<_>>(), "f32": T::F32});
+        out.corr("dm_bincode_ser", format!("corr_bincode_ser {} {} {} {} {}", coq_n(w), coq_n(n), coq_n(p), coq_u64s(&bits), coq_bytes(&bytes)), input.clone());
+        // decoding: the bytes as they are, truncated, extended, with an edited length field
+        let mut variants: Vec<Vec<u8>> = vec![bytes.clone()];
+        let cut = rng.below(bytes.len() + 1);
+        variants.push(bytes[..cut].to_vec());
+        let mut ext = bytes.clone();
+        ext.extend((0..rng.usize_in(1, 9)).map(|_| rng.below(256) as u8));
+        variants.push(ext);
+        let mut edited = bytes.clone();
+        let newlen: u64 = match rng.below(4) {
+            0 => len as u64 + 1,
+            1 => (len as u64).saturating_sub(1),
+            2 => 1u64 << 40,
+            _ => rng.below(4) as u64,
+        };
+        edited[16..24].copy_from_slice(&newlen.to_le_bytes());
+        variants.push(edited);
+        for v in variants {
+            let exp = match guard(|| bincode::deserialize::<DenseMatrix<T>>(&v)) {
+                Ok(Ok(r)) => {
+                    let (rn, rp) = r.shape();
+                    let rv: Vec<T> = r.into();
+                    format!("(BOk {} {} {})", coq_n(rn), coq_n(rp), coq_u64s(&rv.iter().map(|x| bits_of(*x)).collect::<Vec<_>>()))
+                }
+                _ => "BErr".to_string(),
+            };
+            let mut inp = input.clone();
+            inp["bytes"] = json!(v);
+            out.corr("dm_bincode_de", format!("corr_bincode_de {} {} {}", coq_n(w), coq_bytes(&v), exp), inp);
+        }
+    }
+
+    // ---- PartialEq: DenseMatrix directly ----
+    fn corr_dm_eq<T: Num>(out: &mut Out, rng: &mut Rng) {
+        let eps = if T::F32 { f32::EPSILON as f64 } else { f64::EPSILON };
+        let (n, p) = (rng.usize_in(1, 4), rng.usize_in(1, 4));
+        let a: Vec<f64> = (0..n * p).map(|_| if rng.chance(0.1) { *rng.pick(&[f64::NAN, f64::INFINITY, f64::NEG_INFINITY]) } else { lattice(rng) }).collect();
+        let mut b = a.clone();
+        let (mut bn, mut bp) = (n, p);
+        match rng.below(8) {
+            0 => {}
+            1 => {
+                std::mem::swap(&mut bn, &mut bp); // transposed shape, same storage
+            }
+            2 => {
+                b.pop(); // DenseMatrix::new does not check the length
+            }
+            3 => {
+                bn += 1;
+            }
+            _ => {
+                let i = rng.below(b.len());
+                // multiples of eps/4 around the tolerance; exact on the lattice
+                let k = *rng.pick(&[1.0, 2.0, 3.0, 4.0, 5.0, 6.0, 8.0, 4096.0]);
+                b[i] += k * eps / 4.0 * if rng.bool() { 1.0 } else { -1.0 };
+            }
+        }
+        // what the implementation holds (f32: rounded once)
+        let ta = vect::<T>(&a);
+        let tb = vect::<T>(&b);
+        let ma: DenseMatrix<T> = DenseMatrix::new(n, p, ta.clone());
+        let mb: DenseMatrix<T> = DenseMatrix::new(bn, bp, tb.clone());
+        let (fa, fb) = (vecf(&ta), vecf(&tb));
+        if T::F32 {
+            // only cases whose f32 subtraction is exact are comparable with the binary64 model
+            for (x, y) in fa.iter().zip(fb.iter()) {
+                let d = x - y;
+                if d.is_finite() && (d as f32) as f64 != d {
+                    return;
+                }
+            }
+        }
+        for (x, y, xa, ya, xn, xp, yn, yp) in [(&ma, &mb, &fa, &fb, n, p, bn, bp), (&mb, &ma, &fb, &fa, bn, bp, n, p)] {
+            if let Ok(r) = guard(|| x == y) {
+                out.corr(
+                    "eq_dense_matrix",
+                    format!("corr_dm_eq {} (fdm {} {} {}) (fdm {} {} {}) {}", coq_f64(eps), coq_n(xn), coq_n(xp), coq_list_f64(xa), coq_n(yn), coq_n(yp), coq_list_f64(ya), coq_bool(r)),
+                    json!({"entry": "partial_eq", "kind": "DenseMatrix", "f32": T::F32, "a": {"nrows": xn, "ncols": xp, "values": xa.iter().map(|v| hex_f64(*v)).collect::<Vec<_>>()}, "b": {"nrows": yn, "ncols": yp, "values": ya.iter().map(|v| hex_f64(*v)).collect::<Vec<_>>()}}),
+                );
+            }
+        }
+    }
+
+    // ---- PartialEq of fitted models: pairs that differ in one field, built by editing the JSON state ----
+    fn jf(v: &Value) -> String {
+        coq_f64(v.as_f64().unwrap_or(f64::NAN))
+    }
+    fn jfs(v: &Value) -> String {
+        coq_list(v.as_array().map(|a| a.iter().map(jf).collect::<Vec<_>>()).unwrap_or_default())
+    }
+    fn jffs(v: &Value) -> String {
+        coq_list(v.as_array().map(|a| a.iter().map(jfs).collect::<Vec<_>>()).unwrap_or_default())
+    }
+    fn jfffs(v: &Value) -> String {
+        coq_list(v.as_array().map(|a| a.iter().map(jffs).collect::<Vec<_>>()).unwrap_or_default())
+    }
+    fn jn(v: &Value) -> String {
+        format!("{}%N", v.as_u64().unwrap_or(0))
+    }
+    fn jns(v: &Value) -> String {
+        coq_list(v.as_array().map(|a| a.iter().map(jn).collect::<Vec<_>>()).unwrap_or_default())
+    }
+    fn jnns(v: &Value) -> String {
+        coq_list(v.as_array().map(|a| a.iter().map(jns).collect::<Vec<_>>()).unwrap_or_default())
+    }
+    fn jzs(v: &Value) -> String {
+        coq_list(v.as_array().map(|a| a.iter().map(|x| coq_z(x.as_i64().unwrap_or(0))).collect::<Vec<_>>()).unwrap_or_default())
+    }
+    fn jof(v: &Value) -> String {
+        coq_option(if v.is_null() { None } else { Some(jf(v)) })
+    }
+    fn jon(v: &Value) -> String {
+        coq_option(if v.is_null() { None } else { Some(jn(v)) })
+    }
+    fn jdm(v: &Value) -> String {
+        format!("(fdm {} {} {})", jn(&v["nrows"]), jn(&v["ncols"]), jfs(&v["values"]))
+    }
+    fn jrnode(v: &Value) -> String {
+        format!("(frn {} {} {} {} {} {} {})", jn(&v["_index"]), jf(&v["output"]), jn(&v["split_feature"]), jof(&v["split_value"]), jof(&v["split_score"]), jon(&v["true_child"]), jon(&v["false_child"]))
+    }
+    fn jcnode(v: &Value) -> String {
+        format!("(fcn {} {} {} {} {} {} {})", jn(&v["_index"]), jn(&v["output"]), jn(&v["split_feature"]), jof(&v["split_value"]), jof(&v["split_score"]), jon(&v["true_child"]), jon(&v["false_child"]))
+    }
+    fn jrtree(v: &Value) -> String {
+        format!("(frt {} {})", coq_list(v["nodes"].as_array().map(|a| a.iter().map(jrnode).collect::<Vec<_>>()).unwrap_or_default()), jn(&v["depth"]))
+    }
+    fn jctree(v: &Value) -> String {
+        format!(
+            "(fct {} {} {} {})",
+            coq_list(v["nodes"].as_array().map(|a| a.iter().map(jcnode).collect::<Vec<_>>()).unwrap_or_default()),
+            jn(&v["num_classes"]),
+            jfs(&v["classes"]),
+            jn(&v["depth"])
+        )
+    }
+
+    /// (Gallina function, printer of one side, expected printer) per kind
+    fn model_term(kind: &str, a: &Value, b: &Value, res: Option<bool>) -> Option<String> {
+        let rb = || res.map(coq_bool);
+        let ro = || coq_option(res.map(coq_bool));
+        Some(match kind {
+            "LinearRegression" | "RidgeRegression" | "Lasso" | "ElasticNet" => {
+                format!("corr_lin_eq {} {} {} {} {}", jdm(&a["coefficients"]), jf(&a["intercept"]), jdm(&b["coefficients"]), jf(&b["intercept"]), rb()?)
+            }
+            "LogisticRegression" => {
+                let pr = |v: &Value| format!("(flogit {} {} {} {} {})", jdm(&v["coefficients"]), jdm(&v["intercept"]), jfs(&v["classes"]), jn(&v["num_attributes"]), jn(&v["num_classes"]));
+                format!("corr_logit_eq {} {} {}", pr(a), pr(b), rb()?)
+            }
+            "DecisionTreeRegressor" => format!("corr_rtree_eq {} {} {}", jrtree(a), jrtree(b), rb()?),
+            "DecisionTreeClassifier" => format!("corr_ctree_eq {} {} {}", jctree(a), jctree(b), ro()),
+            "RandomForestRegressor" => {
+                let pr = |v: &Value| coq_list(v["trees"].as_array().map(|t| t.iter().map(jrtree).collect::<Vec<_>>()).unwrap_or_default());
+                format!("corr_rforest_eq {} {} {}", pr(a), pr(b), rb()?)
+            }
+            "RandomForestClassifier" => {
+                let pr = |v: &Value| format!("(fcf {} {})", coq_list(v["trees"].as_array().map(|t| t.iter().map(jctree).collect::<Vec<_>>()).unwrap_or_default()), jfs(&v["classes"]));
+                format!("corr_cforest_eq {} {} {}", pr(a), pr(b), ro())
+            }
+            "PCA" => {
+                let pr = |v: &Value| format!("(fpca {} {} {} {} {})", jdm(&v["eigenvectors"]), jfs(&v["eigenvalues"]), jdm(&v["projection"]), jfs(&v["mu"]), jfs(&v["pmu"]));
+                format!("corr_pca_eq {} {} {}", pr(a), pr(b), rb()?)
+            }
+            "SVD" => format!("corr_svd_eq {} {} {} {}", coq_f64(1e-8), jdm(&a["components"]), jdm(&b["components"]), ro()),
+            "SVC" | "SVR" => {
+                let pr = |v: &Value| format!("(fsvm {} {} {})", jf(&v["b"]), jfs(&v["w"]), jffs(&v["instances"]));
+                format!("corr_svm_eq {} {} {}", pr(a), pr(b), rb()?)
+            }
+            "KMeans" => {
+                let pr = |v: &Value| format!("(fkm {} {} {} {} {})", jn(&v["k"]), jns(&v["_y"]), jns(&v["size"]), jf(&v["_distortion"]), jffs(&v["centroids"]));
+                format!("corr_kmeans_eq {} {} {}", pr(a), pr(b), rb()?)
+            }
+            "DBSCAN" => {
+                let pr = |v: &Value| format!("(fdb {} {} {})", jzs(&v["cluster_labels"]), jn(&v["num_classes"]), jf(&v["eps"]));
+                format!("corr_dbscan_eq {} {} {}", pr(a), pr(b), rb()?)
+            }
+            "KNNClassifier" => {
+                let pr = |v: &Value| format!("(fkc {} {} {})", jfs(&v["classes"]), jns(&v["y"]), jn(&v["k"]));
+                format!("corr_knnc_eq {} {} {}", pr(a), pr(b), rb()?)
+            }
+            "KNNRegressor" => {
+                let pr = |v: &Value| format!("(fkr {} {})", jfs(&v["y"]), jn(&v["k"]));
+                format!("corr_knnr_eq {} {} {}", pr(a), pr(b), rb()?)
+            }
+            "CoverTree" => format!("corr_covertree_eq {} {} {}", jffs(&a["data"]), jffs(&b["data"]), rb()?),
+            "BernoulliNB" => {
+                let pr = |v: &Value| {
+                    let d = &v["inner"]["distribution"];
+                    format!("(fbern {} {} {} {} {} {})", jfs(&d["class_labels"]), jns(&d["class_count"]), jfs(&d["class_priors"]), jnns(&d["feature_count"]), jffs(&d["feature_log_prob"]), jn(&d["n_features"]))
+                };
+                format!("corr_bernoulli_eq {} {} {}", pr(a), pr(b), rb()?)
+            }
+            "CategoricalNB" => {
+                let pr = |v: &Value| {
+                    let d = &v["inner"]["distribution"];
+                    format!("(fcat {} {} {} {} {} {})", jns(&d["class_count"]), jfs(&d["class_labels"]), jfs(&d["class_priors"]), jfffs(&d["coefficients"]), jn(&d["n_features"]), jns(&d["n_categories"]))
+                };
+                format!("corr_categorical_eq {} {} {}", pr(a), pr(b), rb()?)
+            }
+            _ => return None,
+        })
+    }
+
+    /// JSON pointers of all numeric / null leaves and of all non-empty arrays below `v`
+    fn leaves(v: &Value, path: String, num: &mut Vec<String>, arrays: &mut Vec<String>) {
+        match v {
+            Value::Number(_) | Value::Null => num.push(path),
+            Value::Array(a) => {
+                if !a.is_empty() {
+                    arrays.push(path.clone());
+                }
+                for (i, x) in a.iter().enumerate() {
+                    leaves(x, format!("{}/{}", path, i), num, arrays);
+                }
+            }
+            Value::Object(o) => {
+                for (k, x) in o.iter() {
+                    leaves(x, format!("{}/{}", path, k), num, arrays);
+                }
+            }
+            _ => {}
+        }
+    }
+
+    fn perturb(rng: &mut Rng, v: &Value, root: &str) -> Option<(Value, String)> {
+        let mut num = vec![];
+        let mut arrays = vec![];
+        leaves(v.pointer(root)?, root.to_string(), &mut num, &mut arrays);
+        let mut w = v.clone();
+        let eps = f64::EPSILON;
+        if rng.chance(0.15) && !arrays.is_empty() {
+            let pth = rng.pick(&arrays).clone();
+            w.pointer_mut(&pth)?.as_array_mut()?.pop();
+            return Some((w, format!("pop {}", pth)));
+        }
+        if num.is_empty() {
+            return None;
+        }
+        let pth = rng.pick(&num).clone();
+        let leaf = w.pointer_mut(&pth)?;
+        let what;
+        if leaf.is_null() {
+            *leaf = json!(0.5);
+            what = format!("null->0.5 {}", pth);
+        } else if leaf.is_f64() {
+            let old = leaf.as_f64()?;
+            let d = *rng.pick(&[0.25 * eps, 0.5 * eps, eps, 1.5 * eps, 2.0 * eps, 2.5 * eps, 3.0 * eps, 4.0 * eps, 1e-9, 0.9e-8, 1.1e-8, 0.5, 0.0]) * if rng.bool() { 1.0 } else { -1.0 };
+            let new = if rng.chance(0.1) { old * (1.0 + eps) } else { old + d };
+            *leaf = json!(new);
+            what = format!("{:e} -> {:e} {}", old, new, pth);
+        } else if let Some(u) = leaf.as_u64() {
+            let new = if u > 0 && rng.bool() { u - 1 } else { u + 1 };
+            *leaf = json!(new);
+            what = format!("{} -> {} {}", u, new, pth);
+        } else {
+            let i = leaf.as_i64()?;
+            let new = if rng.bool() { i - 1 } else { i + 1 };
+            *leaf = json!(new);
+            what = format!("{} -> {} {}", i, new, pth);
+        }
+        Some((w, what))
+    }
+
+    fn corr_model_eq<M: Serialize + DeserializeOwned + PartialEq>(out: &mut Out, rng: &mut Rng, kind: &str, m: &M, root: &str, reps: usize) {
+        let v = match serde_json::to_value(m) {
+            Ok(v) => v,
+            Err(_) => return,
+        };
+        if v.to_string().len() > 6000 {
+            return;
+        }
+        for rep in 0..reps {
+            let (w, what) = if rep == 0 {
+                (v.clone(), "identical".to_string())
+            } else {
+                match perturb(rng, &v, root) {
+                    Some(x) => x,
+                    None => continue,
+                }
+            };
+            let (a, b): (M, M) = match (serde_json::from_value(v.clone()), serde_json::from_value(w.clone())) {
+                (Ok(a), Ok(b)) => (a, b),
+                _ => continue,
+            };
+            for (x, y, vx, vy) in [(&a, &b, &v, &w), (&b, &a, &w, &v)] {
+                let res = guard(|| x == y).ok();
+                if let Some(term) = model_term(kind, vx, vy, res) {
+                    out.corr(&format!("eq_{}", kind), term, json!({"entry": "partial_eq", "kind": kind, "edit": what, "a": vx, "b": vy, "impl_eq": res}));
+                }
+            }
+        }
+    }
+
+    fn small_data(rng: &mut Rng, n: usize, p: usize, target: Target, feat: Feat) -> Data {
+        let (d, _) = gen_data(rng, n, p, feat, target, true, false);
+        d
+    }
+
+    fn corr_models(out: &mut Out, rng: &mut Rng, reps: usize) {
+        type M = DenseMatrix<f64>;
+        let n = rng.usize_in(5, 8);
+        let p = rng.usize_in(1, 2);
+        let dr = small_data(rng, n, p, Target::Reg, Feat::Cont);
+        let dc = small_data(rng, n, p, Target::Class(2), Feat::Cont);
+        let (xr, yr) = (mat::<f64>(&dr.x), dr.y.clone());
+        let (xc, yc) = (mat::<f64>(&dc.x), dc.y.clone());
+        macro_rules! go {
+            ($kind:expr, $fit:expr) => {
+                go!($kind, $fit, "")
+            };
+            ($kind:expr, $fit:expr, $root:expr) => {
+                if let Ok(Ok(m)) = guard(|| $fit) {
+                    corr_model_eq(out, rng, $kind, &m, $root, reps);
+                }
+            };
+        }
+        go!("LinearRegression", LinearRegression::fit(&xr, &yr, Default::default()));
+        go!("RidgeRegression", RidgeRegression::fit(&xr, &yr, Default::default()));
+        go!("Lasso", Lasso::fit(&xr, &yr, LassoParameters::default().with_alpha(0.01)));
+        go!("ElasticNet", ElasticNet::fit(&xr, &yr, ElasticNetParameters::default().with_alpha(0.01)));
+        go!("LogisticRegression", LogisticRegression::fit(&xc, &yc, Default::default()));
+        go!("DecisionTreeRegressor", DecisionTreeRegressor::fit(&xr, &yr, DecisionTreeRegressorParameters::default().with_max_depth(2)));
+        go!("DecisionTreeClassifier", DecisionTreeClassifier::fit(&xc, &yc, DecisionTreeClassifierParameters::default().with_max_depth(2)));
+        go!("RandomForestRegressor", RandomForestRegressor::fit(&xr, &yr, RandomForestRegressorParameters::default().with_n_trees(2).with_max_depth(2)));
+        go!("RandomForestClassifier", RandomForestClassifier::fit(&xc, &yc, RandomForestClassifierParameters::default().with_n_trees(2).with_max_depth(2)));
+        let xw = mat::<f64>(&small_data(rng, 6, 3, Target::NoTarget, Feat::Cont).x);
+        go!("PCA", PCA::<f64, M>::fit(&xw, PCAParameters::default().with_n_components(2)));
+        go!("SVD", SVD::<f64, M>::fit(&xw, SVDParameters::default().with_n_components(2)));
+        go!("SVC", SVC::<f64, M, LinearKernel>::fit(&xc, &yc, SVCParameters::default().with_c(1.0)));
+        go!("SVR", SVR::<f64, M, LinearKernel>::fit(&xr, &yr, SVRParameters::default().with_eps(0.05).with_c(10.0)));
+        go!("KMeans", KMeans::<f64>::fit(&xr, KMeansParameters::default().with_k(2)));
+        go!("DBSCAN", DBSCAN::fit(&xr, DBSCANParameters::default().with_eps(1.0).with_min_samples(2).with_algorithm(KNNAlgorithmName::LinearSearch)));
+        go!("KNNClassifier", KNNClassifier::fit(&xc, &yc, KNNClassifierParameters::default().with_k(2).with_algorithm(KNNAlgorithmName::LinearSearch)));
+        go!("KNNRegressor", KNNRegressor::fit(&xr, &yr, KNNRegressorParameters::default().with_k(2).with_algorithm(KNNAlgorithmName::LinearSearch)));
+        go!("CoverTree", CoverTree::new(rows_t::<f64>(&dr.x[..4.min(n)]), Distances::euclidian()), "/data");
+        let db = small_data(rng, n, 2, Target::Class(2), Feat::Binary);
+        go!("BernoulliNB", BernoulliNB::fit(&mat::<f64>(&db.x), &db.y, BernoulliNBParameters::default().with_binarize(0.5)), "/inner/distribution");
+        let dk = small_data(rng, n, 2, Target::Class(2), Feat::Cat);
+        go!("CategoricalNB", CategoricalNB::fit(&mat::<f64>(&dk.x), &dk.y, CategoricalNBParameters::default()), "/inner/distribution");
+    }
+
+    pub fn run_corr(out: &mut Out, rng: &mut Rng, thorough: bool) {
+        let k = if thorough { 4 } else { 1 };
+        for i in 0..12 * k {
+            if i % 3 == 2 {
+                corr_tokens::<f32>(out, rng);
+            } else {
+                corr_tokens::<f64>(out, rng);
+            }
+        }
+        for i in 0..30 * k {
+            if i % 4 == 3 {
+                corr_json::<f32>(out, rng, i % 2);
+            } else {
+                corr_json::<f64>(out, rng, i % 2);
+            }
+        }
+        for _ in 0..3 * k {
+            corr_json::<f64>(out, rng, 2);
+        }
+        corr_json_orders::<f64>(out, rng);
+        corr_json_orders::<f32>(out, rng);
+        for i in 0..8 * k {
+            if i % 2 == 1 {
+                corr_bincode::<f32>(out, rng);
+            } else {
+                corr_bincode::<f64>(out, rng);
+            }
+        }
+        for i in 0..14 * k {
+            if i % 3 == 2 {
+                corr_dm_eq::<f32>(out, rng);
+            } else {
+                corr_dm_eq::<f64>(out, rng);
+            }
+        }
+        for _ in 0..k {
+            corr_models(out, rng, if thorough { 6 } else { 4 });
+        }
+    }
+
+    pub fn replay_corr(_out: &mut Out, _inp: &Value) {
+        // correspondence cases are re-decided by the driver (coqc); nothing to evaluate here
+    }
 }
